@@ -25,6 +25,7 @@ extern void mpt_gnode_relink(MPT_STRUCT(node) *start)
 		/* descend to first child */
 		if ((next = node->children)) {
 			next->parent = node;
+			next->prev = 0;
 			node = next;
 			continue;
 		}
